@@ -39,10 +39,8 @@ def run(ctx):
         gen_ok = _ssagen(ctx, ctx.repo)
         # two separate builds/audits: a regenerated definition whose proof fails must not hide the audit of Props.C01
         ctx.lean(props=["Props.C01"], drivers=["drv_c01"])
-        n0 = len(ctx.lean_problems)
-        if gen_ok:
-            ctx.lean(props=["Props.C01Gen"], facts=False)
-            _explain(ctx, n0)
+        if gen_ok and _build_gen(ctx):
+            ctx.lean(props=["Props.C01Gen"], facts=False)     # the build is up to date: this is the axiom audit
         else:
             for n in core.theorem_names(GEN_PROPS):
                 ctx.theorems.append({"name": n, "axioms": None, "ok": False})
@@ -103,10 +101,50 @@ def _ssagen(ctx, repo):
     return True
 
 
-def _explain(ctx, n0):
+def _build_gen(ctx):
+    """Build Props.C01Gen against the regenerated definitions, with a wall-clock limit: on a goal that is no longer
+    provable `omega` can search for minutes, and a changed behaviour has to be reported within the tier's time budget.
+    A failure or a timeout is reported as a proof that no longer checks (every theorem of the module counts as not
+    discharged); the differential run then looks for a concrete failing input."""
+    import signal
+    import subprocess
+    limit = 180 if ctx.tier == "quick" else 900   # a quiet machine needs 12-25 s, success or failure
+    if os.environ.get("VERIF_C01GEN_LIMIT", "").isdigit():
+        limit = int(os.environ["VERIF_C01GEN_LIMIT"])     # for testing the time-out path
+    cmd = ["lake", "build", "Props.C01Gen"]
+    ctx.checker_cmds.append("cd lean && " + " ".join(cmd))
+    with open(os.path.join(core.VERIF, ".work", "lean.lock"), "w") as lk:
+        fcntl.flock(lk, fcntl.LOCK_EX)
+        p = subprocess.Popen(cmd, cwd=core.LEAN, stdout=subprocess.PIPE, stderr=subprocess.STDOUT, text=True,
+                             errors="replace", start_new_session=True)
+        try:
+            out, _ = p.communicate(timeout=limit)
+            rc = p.returncode
+        except subprocess.TimeoutExpired:
+            try:
+                os.killpg(p.pid, signal.SIGKILL)
+            except OSError:
+                pass
+            out, _ = p.communicate()
+            rc = None
+    if rc == 0:
+        return True
+    if rc is None:
+        ctx.lean_problems.append("translator tie: the proofs of Props/C01Gen.lean about the definitions regenerated from "
+                                 "the Go source did not finish within %d s (a regenerated definition is no longer "
+                                 "provably the verified model)" % limit)
+        print("# translator tie: Props/C01Gen.lean did not build within %d s against the regenerated definitions" % limit)
+        return False
+    errs = [l for l in out.splitlines() if "error" in l]
+    _explain(ctx, errs)
+    ctx.lean_problems.append("lake build Props.C01Gen failed: " + " | ".join(errs[:8]))
+    return False
+
+
+def _explain(ctx, errs):
     """Name the theorems of Props/C01Gen.lean whose proof failed (lake reports file positions)."""
     lines = set()
-    for p in ctx.lean_problems[n0:]:
+    for p in errs:
         for m in re.finditer(r"C01Gen\.lean:(\d+):", p):
             lines.add(int(m.group(1)))
     if not lines:
@@ -124,8 +162,8 @@ def _explain(ctx, n0):
     ctx.extra["c01gen_failed"] = names
     print("# translator tie: the Go source no longer translates to the verified model; failing: C01Gen."
           + ", C01Gen.".join(names))
-    ctx.lean_problems.insert(n0, "the definition regenerated from the Go source is no longer proved equal to the "
-                                 "verified model: C01Gen." + ", C01Gen.".join(names))
+    ctx.lean_problems.append("translator tie: the definition regenerated from the Go source is no longer proved equal to "
+                             "the verified model: C01Gen." + ", C01Gen.".join(names))
 
 
 def _paths(ctx):
